@@ -93,8 +93,9 @@ def same_block(a, b, loose):
             if x["type"] == "inline" and x.get("children") != y.get("children"):
                 x["children"], y["children"] = norm_titles(x.get("children")), norm_titles(y.get("children"))
             if x["type"] == "definition" and x.get("meta") and y.get("meta"):
-                x["meta"] = {**x["meta"], "title": norm_inline(x["meta"].get("title", ""))}
-                y["meta"] = {**y["meta"], "title": norm_inline(y["meta"].get("title", ""))}
+                # the raw label of a definition (kept in meta under inline_definitions) and its title may continue on a lazy line
+                x["meta"] = {**x["meta"], "title": norm_inline(x["meta"].get("title", "")), "label": norm_inline(x["meta"].get("label", ""))}
+                y["meta"] = {**y["meta"], "title": norm_inline(y["meta"].get("title", "")), "label": norm_inline(y["meta"].get("label", ""))}
         if x != y:
             diff = [k for k in x if x.get(k) != y.get(k)]
             return f"token {x['type']} (map {x.get('map')}) differs in {diff}: expected {[x.get(k) for k in diff]!r:.300} got {[y.get(k) for k in diff]!r:.300}"
